@@ -365,8 +365,23 @@ func (e ErrSpec) Build() error {
 		return io.EOF
 	case "unexpected-eof":
 		return io.ErrUnexpectedEOF
+	case "wrapped-ctx-canceled":
+		return fmt.Errorf("backend query: %w", context.Canceled)
+	case "wrapped-ctx-deadline":
+		return fmt.Errorf("backend query: %w", context.DeadlineExceeded)
+	case "ok-status-error":
+		return okStatusErr{}
 	}
 	panic("bad ErrSpec kind " + e.Kind)
+}
+
+// okStatusErr is a non-nil error whose gRPC status says OK (e.g. a careless wrapper around an
+// upstream status): the handler failed, so the client must not see success.
+type okStatusErr struct{}
+
+func (okStatusErr) Error() string { return "wrapped upstream status" }
+func (okStatusErr) GRPCStatus() *status.Status {
+	return status.New(codes.OK, "wrapped upstream status")
 }
 
 // expected status as the standard transport reports it (validated against grpc-go).
@@ -390,9 +405,19 @@ func (e ErrSpec) Expected() (code codes.Code, msg string, details []AnySpec) {
 		return codes.Unknown, "EOF", nil
 	case "unexpected-eof":
 		return codes.Unknown, io.ErrUnexpectedEOF.Error(), nil
+	case "wrapped-ctx-canceled":
+		return codes.Canceled, "backend query: " + context.Canceled.Error(), nil
+	case "wrapped-ctx-deadline":
+		return codes.DeadlineExceeded, "backend query: " + context.DeadlineExceeded.Error(), nil
+	case "ok-status-error":
+		// any failure will do (see anyFailure); Internal is what httpgrpc documents
+		return codes.Internal, "wrapped upstream status", nil
 	}
 	panic("bad ErrSpec kind")
 }
+
+// anyFailure: the handler failed but no particular code can be demanded of the transport.
+func (e ErrSpec) anyFailure() bool { return e.Kind == "ok-status-error" }
 
 func (e ErrSpec) isNil() bool {
 	c, _, _ := e.Expected()
@@ -424,7 +449,7 @@ func genErr(t *rapid.T, label string) ErrSpec {
 	case k < 9:
 		return ErrSpec{Kind: "plain", Msg: genStatusMsg(t, label+"-msg")}
 	case k < 10:
-		return ErrSpec{Kind: rapid.SampledFrom([]string{"ctx-canceled", "ctx-deadline"}).Draw(t, label+"-ctx")}
+		return ErrSpec{Kind: rapid.SampledFrom([]string{"ctx-canceled", "ctx-deadline", "wrapped-ctx-canceled", "wrapped-ctx-deadline", "ok-status-error"}).Draw(t, label+"-ctx")}
 	default:
 		return ErrSpec{Kind: rapid.SampledFrom([]string{"eof", "unexpected-eof"}).Draw(t, label+"-eof")}
 	}
